@@ -200,8 +200,8 @@ pub fn cases(tier: Tier) -> (Vec<Case>, Value) {
                     idx += 1;
                     continue;
                 }
-                // multi-wire gate patterns: one delta (rho) in the quick tier, two in the thorough tier
-                if matches!(s, Site::Gate2(..)) && (d == 1 || (d == 0 && tier == Tier::Quick)) {
+                // multi-wire gate patterns: one delta (rho)
+                if matches!(s, Site::Gate2(..)) && d != 2 {
                     continue;
                 }
                 if tier == Tier::Quick && d == 1 {
